@@ -77,6 +77,16 @@ def table(F, p):
                     if st[0] == 'assign' and st[2][0] == 'binop' and st[2][1].startswith('Add'):
                         if any(r[0] == 'param' and r[1] == 4 for o in (st[2][2], st[2][3]) for r in F.trace(p, o)):
                             incs.add(side)
+            if t[0] == 'call' and callee_of(t[1]) in F.fn_bodies:
+                # a helper method that advances a counter: `fn advance(&mut self, side, increment) { self.line_number[side] += increment as usize }`
+                for (sd, incp) in _inc_summary(F, callee_of(t[1])):
+                    args = t[1]['args']
+                    if incp - 1 >= len(args) or not any(r[0] == 'param' and r[1] == 4 for r in F.trace(p, args[incp - 1])):
+                        continue
+                    if sd[0] == 'lit':
+                        incs.add(sd[1])
+                    elif sd[1] - 1 < len(args):
+                        incs.add(_side_of(F, p, args[sd[1] - 1]))
             for st in blocks[bb]['s']:
                 if st[0] == 'assign' and st[2][0] == 'agg' and st[2][1][0] == 'tuple' and len(st[2][2]) == 2 and numbers is None:
                     # a pair of Options?
@@ -119,6 +129,111 @@ def table(F, p):
     none_ret = any(st[0] == 'assign' and not st[1]['p'] and st[1]['l'] == 0 and st[2][0] == 'agg' and st[2][1][0] == 'adt' and st[2][1][3] == 'None'
                    for bb in (other_reach - common) | {other} for st in blocks[bb]['s'])
     return out, none_ret, names
+
+
+def _side_of(F, p, op):
+    side = [v[2] for v in F.operand_literals(p, op) if v[0] == 'enum']
+    for r in F.trace(p, op):
+        if r[0] == 'agg' and r[1][0] == 'adt':
+            side = [r[1][3]]
+    return side[0] if side else None
+
+
+def _inc_summary(F, q):
+    """[(side, increment parameter)] for a local function that does `<param1>.line_number[side] += <param m>`;
+    side is ('lit', variant) or ('param', k)"""
+    out = []
+    blocks = F.blocks(q)
+    for i, c in F.calls(q):
+        if not callee_of(c).endswith('IndexMut<minusplus::MinusPlusIndex>>::index_mut'):
+            continue
+        if not any(r[0] == 'param' and r[1] == 1 and 'line_number' in r[2] for r in F.trace(q, c['args'][0])):
+            continue
+        lit = _side_of(F, q, c['args'][1])
+        sp = [r[1] for r in F.trace(q, c['args'][1]) if r[0] == 'param' and not r[2]]
+        sd = ('lit', lit) if lit else (('param', sp[0]) if sp else None)
+        tgt = c['target']
+        if sd is None or tgt is None:
+            continue
+        for st in blocks[tgt]['s']:
+            if st[0] == 'assign' and st[2][0] == 'binop' and st[2][1].startswith('Add'):
+                for o in (st[2][2], st[2][3]):
+                    for r in F.trace(q, o):
+                        if r[0] == 'param' and r[1] >= 2 and not r[2]:
+                            out.append((sd, r[1]))
+    return out
+
+
+def _not_last_sources(F, q, op, slice_local):
+    """places of the coordinate slice (parameter `slice_local`) that flow into operand `op` and are positively NOT `last pair . 0`:
+    an element counted from the front, a constant index, first(), or a pair's second component (the length)"""
+    bad = set()
+    seen = set()
+    work = []
+    pl = op.get('move') or op.get('copy')
+    if pl:
+        work.append(pl['l'])
+    defs = F.local_defs(q)
+
+    def classify(proj):
+        fld = [pr[3] for pr in proj if pr[0] == 'field']
+        for pr in proj:
+            if pr[0] == 'cindex':
+                if not pr[2]:
+                    bad.add('element [%d] (counted from the front)' % pr[1])
+                elif pr[1] != 1:
+                    bad.add('element [len() - %d]' % pr[1])
+            if pr[0] == 'index':
+                o = {'copy': {'l': pr[1], 'p': []}}
+                rs = F.trace(q, o)
+                lits = [v[1] for v in F.operand_literals(q, o) if v[0] == 'int']
+                has_len = any((r[0] == 'unop' and r[1] == 'PtrMetadata') or (r[0] == 'call' and r[1].endswith('::len')) for r in rs)
+                sub = any(r[0] == 'binop' and r[1].startswith('Sub') for r in rs)
+                if not has_len and lits and not any(r[0] in ('param', 'call') for r in rs):
+                    bad.add('element [%s]' % lits[0])
+                elif has_len and sub and lits and max(lits) != 1:
+                    bad.add('element [len() - %d]' % max(lits))
+        if fld and fld[-1] == '1' and any(pr[0] in ('cindex', 'index') for pr in proj):
+            bad.add('the length (second component) of a pair')
+    while work:
+        l = work.pop()
+        if l in seen:
+            continue
+        seen.add(l)
+        for (bb, kind, payload) in defs.get(l, []):
+            if kind == 'call':
+                cal = callee_of(payload)
+                if cal.endswith('::first') and any(r[0] in ('param', 'local') and r[1] == slice_local for a in payload['args'][:1] for r in F.trace(q, a)):
+                    bad.add('first()')
+                for a in payload['args'][:1]:
+                    p2 = a.get('move') or a.get('copy')
+                    if p2:
+                        work.append(p2['l'])
+                continue
+            rv = payload
+            places = []
+            if rv[0] in ('use', 'cast'):
+                o = rv[1] if rv[0] == 'use' else rv[2]
+                p2 = o.get('move') or o.get('copy') if isinstance(o, dict) else None
+                if p2:
+                    places.append(p2)
+            elif rv[0] in ('ref', 'rawptr', 'copyderef'):
+                places.append(rv[2] if rv[0] == 'ref' else rv[1])
+            elif rv[0] == 'agg':
+                for o in rv[2]:
+                    p2 = o.get('move') or o.get('copy')
+                    if p2:
+                        places.append(p2)
+            for p2 in places:
+                if p2['l'] == slice_local:
+                    classify(p2['p'])
+                else:
+                    if any(pr[0] in ('cindex', 'index') for pr in p2['p']):
+                        # an element of something derived from the slice (a reborrow / sub-slice)
+                        if any(r[0] in ('param', 'local') and r[1] == slice_local for r in F.trace(q, {'copy': {'l': p2['l'], 'p': []}})):
+                            classify(p2['p'])
+                    work.append(p2['l'])
+    return bad
 
 
 class _Probe(e1.Machine):
@@ -243,7 +358,7 @@ def run(F, tier, res):
                 ni += 1
                 roots = F.trace(q, c['args'][1], deep=True)
                 from_group = any(rr[0] == 'call' and ('Captures' in rr[1] and rr[1].endswith(('::index', '::get'))) for rr in roots)
-                whole = any(rr[0] == 'param' and not rr[2] for rr in F.trace(q, c['args'][1]))
+                whole = any(rr[0] == 'param' and not rr[2] and 'Captures' not in F.local_ty(q, rr[1]) for rr in F.trace(q, c['args'][1]))
                 if from_group and not whole:
                     oki += 1
                 else:
@@ -303,5 +418,27 @@ def run(F, tier, res):
                 res.violate('PANEL', 'fn=%s;panel=%s' % (pl_, label), 'for panel %s the line painter passes increment=%s to the numbering function, expected %s '
                             '(a paired line would be counted twice, or not at all)' % (label, sorted(map(str, incs)), want), where=F.bodies[pl_]['mir']['span']['at'])
     res.rule('C05.PANEL', npn, 3, 'panel argument values x callers of the numbering function: increment flag', discharged=okpn)
+    # ---------- HDR-POS: the position printed in a hunk header is the start (.0) of the LAST coordinate pair (the new file)
+    nh = okh = 0
+    for q in sorted(F.fn_bodies):
+        mir = F.bodies[q]['mir']
+        sl = [i for i in range(1, mir['arg_count'] + 1) if mir['locals'][i].replace(' ', '') == '&[(usize,usize)]']
+        if not sl:
+            continue
+        for i, c in F.calls(q):
+            for a in c['args']:
+                rs = F.trace(q, a)
+                if not (any(r[0] == 'agg' and r[1][0] == 'adt' and r[1][1].endswith('Option') and r[1][3] == 'Some' for r in rs)
+                        and any(r[0] in ('param', 'local') and r[1] == sl[0] for r in rs)):
+                    continue
+                nh += 1
+                bad = _not_last_sources(F, q, a, sl[0])
+                if bad:
+                    res.violate('HDR-POS', 'fn=%s;callee=%s' % (q, callee_of(c).split('::')[-1]),
+                                'the position shown in the hunk header is taken from %s of the coordinate list; the property requires the start of the last pair '
+                                '(the hunk\'s starting line in the new file)' % ', '.join(sorted(bad)), where=F.span_of_call(c))
+                else:
+                    okh += 1
+    res.rule('C05.HDR-POS', nh, 1, 'positions handed (as Some(n)) from a coordinate slice to the hunk-header painter: only the start of the last pair', discharged=okh)
     res.distinct.update(r['rule'] for r in res.rules)
     return res
